@@ -7,7 +7,7 @@ import ast
 from typing import Any, Dict, List, Optional, Set, Tuple
 
 from .efflib import LIB, LIB_METHODS, LIB_METHOD_RETURNS, VALUE_KINDS, eff_float, eff_int, eff_iter, kind_is
-from .effvals import CV, DYN, FS, STRUCT, Val, join_all, of_kind
+from .effvals import CV, DYN, dyn_list, FS, STRUCT, Val, join_all, of_kind
 from .model import dotted, strip_cast
 
 NO_EFFECT = {
@@ -194,10 +194,17 @@ class CallMixin:
             return self.method_on_kinds(recv, cv.name, args, node)
         if cv.kind == "class":
             return self.construct(cv, args, kwargs, node)
+        if cv.kind == "userfn" and cv.name.startswith("body:"):
+            # a probe callable that raises exactly the named classes (compiled macro bodies, source generators)
+            for e in filter(None, cv.name[5:].split(",")):
+                self.raise_(e, f"macro body at {here}")
+            return dyn_list() if cv.cls == "list" else DYN
         if cv.kind == "userfn":
             # host functions: the contract converts ValueError / TypeError
             self.raise_("ValueError", f"host function at {here}")
             self.raise_("TypeError", f"host function at {here}")
+            self.raise_("HostValueError", f"host function (a subclass of ValueError) at {here}")
+            self.raise_("HostTypeError", f"host function (a subclass of TypeError) at {here}")
             return DYN
         if cv.kind in ("fn", "boundmethod") and cv.name != "raw" and cv.node is not None and not isinstance(cv.node, ast.Lambda):
             decos = [d for d in cv.node.decorator_list
